@@ -565,18 +565,6 @@ theorem getitem_wf (b : Bits) :
       obtain ⟨r', h1, h2, _⟩ := getSlice_eq b s e st hsi
       rw [h1] at h; injection h with h; subst h; exact h2
 
-/-- a step of a history "fits" when a contiguous slice assignment is given a value below 2^(stop-start)
-    (every other mutating operation either succeeds within the size or is refused by the code itself) -/
-def Fits (b : Bits) : MutOp → Prop
-  | .setSlice start stop step v =>
-      ∀ s e st, sliceIndices start stop step b.size = .ok (s, e, st) → st = 1 → s < e → v.ival < 2 ^ (e - s).toNat
-  | _ => True
-
-/-- every step of the history fits the state it is applied to -/
-def AllFit : Bits → List MutOp → Prop
-  | _, [] => True
-  | b, op :: ops => Fits b op ∧ ∀ b', b.applyOp op = .ok b' → AllFit b' ops
-
 /-- one mutating operation (`b[i]=v`, `b[s:e:k]=v`, `b[list]=v`, `b.size=n`, `zeroextend`, `signextend`) keeps the
     payload within the size -/
 theorem applyOp_wf (b : Bits) (hb : b.WF) (op : MutOp) (hfit : Fits b op) (r : Bits) (h : b.applyOp op = .ok r) :
